@@ -187,6 +187,19 @@ CHECKS.update({
         ref="DESIGN.md section 2 C11"),
 })
 
+CHECKS.update({
+    "C09": dict(
+        technique="runtime monitoring: differential oracle NumPy-backed vs sentinel-Dask-backed runs of ~35 operations; the sentinel's "
+                  "chunk loads append to an O_APPEND event log (task counter across threads and processes) read before/after graph "
+                  "construction; computes under synchronous / threaded (with sys.monitoring sleep(0) yield injection) / multiprocess "
+                  "schedulers",
+        text="Exploration over operations x classes x random chunk layouts (sample axes and time axis) x schedulers: no input task may "
+             "run while the result graph is built, results stay Dask-backed, class/metadata/shape/dtype equal the NumPy run, values "
+             "equal bitwise (norm-relative tolerance for FFT-based ops) and identically across schedulers; reader dask_read incl. two "
+             "readers in one graph. Evidence lists the distinct chunk-load orders observed under the threaded scheduler.",
+        ref="DESIGN.md section 2 C09"),
+})
+
 NOT_YET = {}
 
 
